@@ -751,6 +751,10 @@ class EbuildProcessor:
                     self.ebd_write.close()
                     self.ebd_read.close()
                     kill = False
+                elif self.pid:
+                    # alive but not answering: it will never see a shutdown
+                    # request, so waiting for it to exit would block forever
+                    kill = True
             except (OSError, ValueError):
                 kill = self.pid is not None
 
